@@ -11,6 +11,10 @@ evaluated here), vs the Lean Spec, vs the Lean Model):
  (d) Print / Assert / Assume under Module-DSL control flow in posedge / negedge domains with no reset,
      synchronous reset and asynchronous reset: which events emit, which event stops the simulation and
      with which message;
+ (d') the same with 1..3 clocked fragments (submodules with their own programs and registers) in 1..3 hand-driven domains
+     (coincident edges included), a fixed plan of events executed two or three times on the SAME Simulator object with
+     `sim.reset()` in between; the first run ends by itself, by a failing assertion in one of the woken fragments, or by a
+     `run_until` deadline right after an event. Every run is compared with the answer for one run from the initial state;
  (e) brace fill characters (`{`, `}`): finding F20, a dedicated stream (the other streams never generate them).
 
 `./check C20 --replay replays/<file>` re-runs a recorded case on the current tree.
@@ -468,8 +472,9 @@ def chunks_job(args):
 # ------------------------------------------------------------------------------------------------
 # (d) control flow
 
-def insert_effects(rng, items, g, mk_id, depth=0):
-    """insert Print / Assert / Assume items at random places of a gen_prog item tree"""
+def insert_effects(rng, items, g, mk_id, depth=0, p_true=0.35):
+    """insert Print / Assert / Assume items at random places of a gen_prog item tree (`p_true`: share of the
+    assertions whose test is made true by construction)"""
     from amaranth.hdl import Print, Assert, Assume, Format, Value
     out = []
 
@@ -480,7 +485,7 @@ def insert_effects(rng, items, g, mk_id, depth=0):
             fmt = rand_format(rng, g, 2)
             return ("fx", i, Print(Format("#{}:", i), fmt, sep="", end=rng.choice(["\n", ";"])))
         test = g.expr(rng.randint(0, 2))
-        if rng.random() < 0.35:
+        if rng.random() < p_true:
             test = test | 1 if rng.random() < 0.5 else test.bool() | (g.expr(1) != 0)
         ctor = Assert if rng.random() < 0.6 else Assume
         r2 = rng.random()
@@ -496,11 +501,11 @@ def insert_effects(rng, items, g, mk_id, depth=0):
             out.append(it)
         elif it[0] == "if":
             _, branches, els = it
-            out.append(("if", [(c, insert_effects(rng, body, g, mk_id, depth + 1)) for c, body in branches],
-                        insert_effects(rng, els, g, mk_id, depth + 1) if els is not None else None))
+            out.append(("if", [(c, insert_effects(rng, body, g, mk_id, depth + 1, p_true)) for c, body in branches],
+                        insert_effects(rng, els, g, mk_id, depth + 1, p_true) if els is not None else None))
         elif it[0] == "switch":
             _, test, cases = it
-            out.append(("switch", test, [(p, insert_effects(rng, body, g, mk_id, depth + 1)) for p, body in cases]))
+            out.append(("switch", test, [(p, insert_effects(rng, body, g, mk_id, depth + 1, p_true)) for p, body in cases]))
     if rng.random() < 0.45 or not items:
         out.append(effect())
     return out
@@ -754,6 +759,233 @@ def flow_job(args):
                 events[-1]["out"] = buf.getvalue()
             case["events"] = events
             case["stop"] = stop
+        except Exception as e:
+            case["error"] = (errkind(e), repr(e)[:300])
+        out.append(case)
+    return {"cases": out, "hist": hist}
+
+
+# ------------------------------------------------------------------------------------------------
+# (d') control flow in several clocked fragments, the same Simulator run again after `reset()`
+
+def rerun_job(args):
+    """designs with 1..3 clocked fragments (submodules, each with its own program of Prints / Asserts / Assumes and its own
+    registers) in 1..3 hand-driven domains; a fixed plan of events is executed two or three times on the SAME Simulator
+    object with `sim.reset()` in between. The first run ends by itself, by a failing assertion / exception in one fragment
+    (the other woken fragments then have not run yet), or by a `run_until` deadline right after an event."""
+    seed, n_progs, depth, n_events = args
+    from amaranth.hdl import (Signal, Module, Fragment, ClockDomain, Cat, unsigned, EnableInserter, DomainRenamer,
+                              Assert, Format, Period)
+    from amaranth.sim import Simulator
+    from .. import gen_expr, gen_prog
+    rng = random.Random(seed)
+    out = []
+    hist = {}
+
+    def note(k, n=1):
+        hist[k] = hist.get(k, 0) + n
+    for _ in range(n_progs):
+        inputs = [Signal(gen_expr.rand_shape(rng, 5), name=f"i{k}") for k in range(rng.randint(2, 4))]
+        inputs += [Signal(unsigned(rng.randint(0, 3)), name=f"o{k}") for k in range(rng.randint(1, 2))]
+        if rng.random() < 0.4:
+            inputs.append(Signal(8, name="str"))
+        offcands = [s for s in inputs if not s.shape().signed and len(s) <= 3]
+        mk = lambda name: Signal(sh := gen_expr.rand_shape(rng, 6), name=name, init=gen_expr.rand_value(rng, sh))
+        n_frag = rng.choice([1, 2, 2, 2, 3, 3])
+        n_dom = 1 if (n_frag == 1 or rng.random() < 0.5) else rng.randint(2, n_frag)
+        dom_of = list(range(n_dom)) + [rng.randrange(n_dom) for _k in range(n_frag - n_dom)]
+        rng.shuffle(dom_of)
+        doms = [{"edge": rng.choice(["pos", "neg"]), "rmode": rng.choice(["norst", "norst", "rst", "async"])} for _j in range(n_dom)]
+        trip = Signal(1, name="trip") if (n_frag > 1 and rng.random() < 0.5) else None
+        counter = itertools.count()
+        frags = []
+        extra_inputs = []
+        # (several fragments multiply the chance of an early failing assertion: make more of them true by construction)
+        p_true = rng.choice([0.6, 0.85, 0.97])
+
+        class Fresh:
+            def __init__(self, tg): self.tg = tg
+            def target(self, d):
+                self.tg.used = set()
+                return self.tg.target(d)
+        try:
+            seen_regs = []
+            for k in range(n_frag):
+                combT = [mk(f"f{k}c{i}") for i in range(rng.randint(1, 2))]
+                syncT = [mk(f"f{k}s{i}") for i in range(rng.randint(1, 3))]
+                # a fragment may read the registers of the fragments before it (never their combinational signals)
+                others = list(seen_regs) if rng.random() < 0.4 else []
+                g_comb = gen_expr.Gen(rng, inputs + syncT + others, maxw=6)
+                g_sync = gen_expr.Gen(rng, inputs + syncT + combT + others, maxw=6)
+                tg_comb = gen_expr.TargetGen(rng, combT, offcands, alias=False, hist=hist)
+                tg_sync = gen_expr.TargetGen(rng, syncT, offcands, alias=False, hist=hist)
+                items = gen_prog.gen_items(rng, g_comb, g_sync, Fresh(tg_comb), Fresh(tg_sync), rng.randint(1, depth), hist,
+                                           allow_fsm=False)
+                items = insert_effects(rng, items, g_sync, lambda: next(counter), p_true=p_true)
+                if trip is not None:
+                    i = next(counter)
+                    fx = ("fx", i, Assert(~trip, Format("#{}: tripped in fragment {}", i, k)))
+                    pos = rng.choice([0, len(items)])
+                    items = items[:pos] + [fx] + items[pos:]
+                en = None
+                if rng.random() < 0.2:
+                    en = Signal(1, name=f"f{k}en", init=rng.choice([0, 1, 1]))
+                    extra_inputs.append(en)
+                    note("rerun_wrapper:enable")
+                frags.append({"items": items, "combT": combT, "syncT": syncT, "en": en, "dom": dom_of[k]})
+                seen_regs += syncT
+        except Exception as e:
+            note("generator_error:" + errkind(e))
+            continue
+        if trip is not None:
+            extra_inputs.append(trip)
+        driven = inputs + extra_inputs
+        allsigs = driven + [s for f in frags for s in f["combT"]] + [s for f in frags for s in f["syncT"]]
+        sigidx = {id(s): i for i, s in enumerate(allsigs)}
+        case = {"seed": seed, "job_args": list(args), "sigs": [(s.name, len(s), s.shape().signed, s.init) for s in allsigs],
+                "doms": doms, "n_driven": len(driven)}
+        try:
+            def wrapped(f, mod):
+                return EnableInserter({"sync": f["en"]})(mod) if f["en"] is not None else mod
+            case["frags"] = []
+            for k, f in enumerate(frags):
+                prog = ser_prog20(f["items"], sigidx)
+                if f["en"] is not None:
+                    prog = f"(if ({ser_value(f['en'], sigidx)} {prog}))"
+                m = Module()
+                build20(m, f["items"])
+                ids = collect_fx(f["items"], {})
+                frag = Fragment.get(wrapped(f, m), None)
+                case["frags"].append({"dom": f["dom"], "prog": prog,
+                                      "stmts": ser_stmts20(frag.statements.get("sync", []), sigidx, ids),
+                                      "regs": [sigidx[id(s)] for s in f["syncT"]]})
+            top = Module()
+            cds = []
+            for j, d in enumerate(doms):
+                cd = ClockDomain(f"d{j}", clk_edge=d["edge"], reset_less=(d["rmode"] == "norst"), async_reset=(d["rmode"] == "async"))
+                top.domains += cd
+                cds.append(cd)
+            for k, f in enumerate(frags):
+                m2 = Module()
+                build20(m2, f["items"])
+                top.submodules[f"f{k}"] = DomainRenamer({"sync": f"d{f['dom']}"})(wrapped(f, m2))
+            # the plan of events: fixed before the first run, executed identically by every run
+            st = [[0, 0] for _d in doms]
+            t_trip = rng.randrange(n_events) if trip is not None else None
+            plan = []
+            for n in range(n_events):
+                sets = []
+                for s in driven:
+                    if s is trip:
+                        if n == t_trip:
+                            sets.append((sigidx[id(s)], 1))
+                        continue
+                    if rng.random() < 0.6:
+                        v = gen_expr.rand_value(rng, s.shape())
+                        if s.name == "str":
+                            v = rng.choice([0, 65, 0x7b, 0x7d, 0x20, 0x7e])
+                        sets.append((sigidx[id(s)], v))
+                together = rng.random() < 0.45      # every clock toggles at this event (coincident edges)
+                dd = []
+                for j, d in enumerate(doms):
+                    c0, r0 = st[j]
+                    c1, r1 = c0, r0
+                    r = rng.random()
+                    if together:
+                        c1 = 1 - c0
+                        if d["rmode"] != "norst" and r < 0.15:
+                            r1 = 1 - r0
+                    elif d["rmode"] == "norst":
+                        if r < 0.7:
+                            c1 = 1 - c0
+                    else:
+                        if r < 0.5:
+                            c1 = 1 - c0
+                        elif r < 0.72:
+                            r1 = 1 - r0
+                        elif r < 0.85:
+                            c1, r1 = 1 - c0, 1 - r0
+                    st[j] = [c1, r1]
+                    dd.append([c0, c1, r0, r1])
+                plan.append({"sets": sets, "dom": dd})
+            case["plan"] = [p["dom"] for p in plan]
+            n_runs = 2 if rng.random() < 0.8 else 3
+            timed = rng.random() < 0.35
+            deadline = None
+            if timed:
+                # the first run is cut by `run_until` right after event `deadline - 1` (preferably one with a clock toggle)
+                cand = [n + 1 for n in range(n_events - 1) if any(d[0] != d[1] for d in plan[n]["dom"])]
+                deadline = rng.choice(cand) if cand else rng.randint(1, max(1, n_events - 1))
+            case["timed"], case["deadline"] = timed, deadline
+            sim = Simulator(top)
+            buf = io.StringIO()
+            cur = {"rec": None}
+
+            def take():
+                t = buf.getvalue()
+                buf.seek(0)
+                buf.truncate()
+                return t
+
+            async def tb(ctx):
+                rec = cur["rec"]
+                rec["pre_out"] = take()
+                for n, step in enumerate(plan):
+                    for idx, v in step["sets"]:
+                        ctx.set(allsigs[idx], v)
+                    rec["events"].append({"env": [ctx.get(s) for s in allsigs], "out": None})
+                    rec["n"] = n
+                    chg, val = [], 0
+                    for cd, (c0, c1, r0, r1) in zip(cds, step["dom"]):
+                        if c1 != c0:
+                            val |= c1 << len(chg)
+                            chg.append(cd.clk)
+                        if r1 != r0:
+                            val |= r1 << len(chg)
+                            chg.append(cd.rst)
+                    if len(chg) == 1:
+                        ctx.set(chg[0], val)
+                    elif chg:
+                        ctx.set(Cat(*chg), val)
+                    rec["events"][-1]["out"] = take()
+                    if timed:
+                        await ctx.delay(Period(us=1))
+                rec["final"] = [ctx.get(s) for s in allsigs]
+            sim.add_testbench(tb)
+            runs = []
+            for r in range(n_runs):
+                rec = {"events": [], "pre_out": None, "final": None, "n": -1}
+                cur["rec"] = rec
+                stop = None
+                try:
+                    with contextlib.redirect_stdout(buf):
+                        if timed and r == 0:
+                            sim.run_until(Period(us=deadline))
+                        else:
+                            sim.run()
+                except AssertionError as e:
+                    stop = [rec["n"], "A", str(e)]
+                except Exception as e:
+                    stop = [rec["n"], "E", errkind(e)]
+                rest = take()
+                if rec["pre_out"] is None:
+                    rec["pre_out"] = rest       # stopped before the testbench started
+                elif stop is not None and rec["events"] and rec["events"][-1]["out"] is None:
+                    rec["events"][-1]["out"] = rest
+                    rest = ""
+                rec["post_out"] = rest
+                rec["stop"] = stop
+                rec["cut"] = bool(timed and r == 0 and stop is None)
+                # for the histograms only (never for the verdict): synchronous processes the engine still holds as runnable
+                try:
+                    rec["left"] = sum(1 for p in sim._engine._processes if getattr(p, "is_comb", None) is False and p.runnable)
+                except Exception:
+                    rec["left"] = None
+                del rec["n"]
+                runs.append(rec)
+                if r + 1 < n_runs:
+                    sim.reset()
+            case["runs"] = runs
         except Exception as e:
             case["error"] = (errkind(e), repr(e)[:300])
         out.append(case)
@@ -1056,6 +1288,189 @@ def judge_flow(chk, c, req, resp):
                     "outs": [e["out"] for e in c["events"] if e["out"] is not None]}, limit=14)
 
 
+def run_rerun(chk, quick):
+    rng = chk.rng
+    jobs = [(rng.getrandbits(48), 8, 3, 10) for _ in range(48 if quick else 800)]
+    with ProcessPoolExecutor(max_workers=min(16, os.cpu_count() or 4)) as ex:
+        for job in ex.map(rerun_job, jobs, chunksize=2):
+            judge_rerun_job(chk, job)
+
+
+def rerun_requests(c, run):
+    """one `sim` request per fragment: the events this run executed, as seen by the fragment's domain"""
+    ctx = ser_ctx([_Shape(w, sg) for _n, w, sg, _i in c["sigs"]])
+    reqs = []
+    for f in c["frags"]:
+        d = c["doms"][f["dom"]]
+        dom = f"(dom {d['edge']} {'norst' if d['rmode'] == 'norst' else 'rst'} {'async' if d['rmode'] == 'async' else 'sync'})"
+        evs = " ".join("(ev " + " ".join(str(x) for x in c["plan"][n][f["dom"]]) + " " + " ".join(str(v) for v in e["env"]) + ")"
+                       for n, e in enumerate(run["events"]))
+        reqs.append(f"(sim {ctx} {dom} (seq {f['stmts']}) (prog {f['prog']}) {evs})")
+    return reqs
+
+
+def judge_rerun_job(chk, job):
+    for k, v in job["hist"].items():
+        chk.hist("constructs", k, v)
+    live = [c for c in job["cases"] if "error" not in c]
+    for c in job["cases"]:
+        if "error" in c:
+            chk.violation(f"building or simulating (run, reset, run again) a legal design with Print/Assert raises {c['error'][0]}: {c['error'][1]}",
+                          dict(stream="rerun", sigs=c["sigs"], frags=c.get("frags"), error=c["error"], job_seed=c["seed"],
+                               job_args=c.get("job_args"), classes=[]))
+    answers = {}
+    for c in live:
+        for run in c["runs"]:
+            for q in rerun_requests(c, run):
+                answers.setdefault(q, None)
+    qs = list(answers)
+    for q, resp in zip(qs, chk.driver.ask(qs)):
+        answers[q] = resp
+    for c in live:
+        judge_rerun(chk, c, answers)
+
+
+def _orderings(texts):
+    return {"".join(p) for p in itertools.permutations([t for t in texts if t])}
+
+
+def judge_rerun(chk, c, answers):
+    names = [s[0] for s in c["sigs"]]
+    inits = [s[3] for s in c["sigs"]]
+    nf = len(c["frags"])
+    base = {"stream": "rerun", "sigs": c["sigs"], "domains": c["doms"], "fragments": [{"domain": f["dom"], "prog": f["prog"][:2000]} for f in c["frags"]],
+            "plan": c["plan"], "timed": c["timed"], "deadline": c["deadline"], "job_seed": c["seed"], "job_args": c["job_args"], "brace": False}
+    runs = c["runs"]
+    first = runs[0]
+    first_end = "deadline" if first["cut"] else "complete" if first["stop"] is None else "assert" if first["stop"][1] == "A" else "error"
+    chk.hist("rerun_runs", len(runs))
+    chk.hist("rerun_first_end", first_end)
+    chk.hist("rerun_fragments", nf)
+    chk.hist("rerun_domains", len(c["doms"]))
+    chk.hist("rerun_left_runnable_after_first_run", "unknown" if first["left"] is None else first["left"])
+    n_emit = 0
+    for r, run in enumerate(runs):
+        which = "first run" if r == 0 else f"run {r + 1} (same Simulator, after reset())"
+        b = dict(base, run=r, first_run_ended=first_end, stop=run["stop"], outs=[e["out"] for e in run["events"]],
+                 pre_out=run["pre_out"], post_out=run["post_out"])
+        events = run["events"]
+        impl_stop = tuple(run["stop"]) if run["stop"] is not None else None
+        # nothing may be emitted, and no register may have moved, before the first event (there has been no edge)
+        if run["pre_out"]:
+            chk.violation(f"{which}: {run['pre_out']!r} printed before the first event (no clock edge has happened yet)",
+                          dict(b, impl=run["pre_out"], expected="", classes=[]))
+            return
+        if not events:
+            chk.violation(f"{which}: stopped with {impl_stop!r} before the first event (no clock edge has happened yet)",
+                          dict(b, impl=impl_stop, expected=None, classes=[]))
+            return
+        for f in c["frags"]:
+            for i in f["regs"]:
+                if events[0]["env"][i] != inits[i]:
+                    chk.violation(f"{which}: register {names[i]} is {events[0]['env'][i]} before the first clock edge; its initial value is {inits[i]}",
+                                  dict(b, signal=names[i], impl=events[0]["env"][i], expected=inits[i], classes=[]))
+                    return
+        reqs = rerun_requests(c, run)
+        rows = []
+        for k, q in enumerate(reqs):
+            parts = (answers.get(q) or "").split(" ; ")
+            if parts[0] != "sim" or len(parts) != len(events) + 2:
+                chk.not_shown("driver could not evaluate a rerun case", dict(b, fragment=k, request=q[:3000], response=(answers.get(q) or "")[:300]))
+                return
+            rows.append(([common.kv(p) for p in parts[1:-1]], common.kv(parts[-1])))
+        # a register changes only at the active edges of its domain (and at a change of an asynchronous reset)
+        for n in range(len(events)):
+            nxt = events[n + 1]["env"] if n + 1 < len(events) else run["final"]
+            if nxt is None:
+                continue
+            for k, f in enumerate(c["frags"]):
+                _c0, _c1, r0, r1 = c["plan"][n][f["dom"]]
+                if rows[k][0][n]["a"] == "0" and not (c["doms"][f["dom"]]["rmode"] == "async" and r0 != r1):
+                    for i in f["regs"]:
+                        if nxt[i] != events[n]["env"][i]:
+                            chk.violation(f"{which}: register {names[i]} changed from {events[n]['env'][i]} to {nxt[i]} at event {n}, which is no active edge of its domain",
+                                          dict(b, event_index=n, signal=names[i], classes=[]))
+                            return
+        for key, what, is_spec in (("d", "the programs as written", True), ("s", "the lowered statements", True),
+                                   ("m", "statements as amaranth built them", False), ("l", "Lean model of the DSL lowering", False)):
+            stops = [parse_stop(rows[k][1][key]) for k in range(nf)]
+            idxs = [s[0] for s in stops if s is not None]
+            want_idx = min(idxs) if idxs else None
+            bad = None
+            for n, ev in enumerate(events):
+                texts = []
+                for k in range(nf):
+                    t = unhx(rows[k][0][n][key])
+                    texts.append(t[1] if t[0] == "ok" else "")
+                if impl_stop is not None and n == impl_stop[0] and n == len(events) - 1:
+                    # the stopping event: the fragments evaluated before the failing one emitted everything, the failing one
+                    # emitted up to the failing statement, the rest did not run (any evaluation order is accepted)
+                    ok = False
+                    for k in range(nf):
+                        if stops[k] is None or tuple(stops[k]) != impl_stop:
+                            continue
+                        done = [texts[j] for j in range(nf) if j != k and texts[j] and not (stops[j] is not None and stops[j][0] == n)]
+                        for m in range(len(done) + 1):
+                            for sub in itertools.combinations(done, m):
+                                if ev["out"] in {o + texts[k] for o in _orderings(sub)}:
+                                    ok = True
+                    if not ok and want_idx == n:
+                        bad = (f"event {n} (where the simulation stopped with {impl_stop!r}): printed {ev['out']!r}; no evaluation order of the fragments' "
+                               f"active Prints {texts!r} / failing statements {[s for s in stops if s is not None and s[0] == n]!r} ({what}) gives that",
+                               dict(event_index=n, impl=ev["out"], expected=texts))
+                        break
+                elif ev["out"] not in _orderings(texts):
+                    bad = (f"event {n}: printed {ev['out']!r}; the active Prints of the fragments ({what}) give {texts!r} (in any order)",
+                           dict(event_index=n, impl=ev["out"], expected=texts))
+                    break
+            if bad is None:
+                impl_idx = impl_stop[0] if impl_stop is not None else None
+                if impl_idx != want_idx or (impl_stop is not None and not any(s is not None and tuple(s) == impl_stop for s in stops)):
+                    bad = (f"simulation stopped at {impl_stop!r}; by {what} the first failing edge is {[s for s in stops if s is not None and s[0] == want_idx]!r}",
+                           dict(impl=impl_stop, expected=stops))
+            if bad is not None:
+                if is_spec:
+                    chk.violation(f"{which}: {bad[0]}", dict(b, classes=[], **bad[1]))
+                else:
+                    chk.not_shown(f"rerun: impl = spec but the Lean model ({what}) differs: {bad[0][:200]}", dict(b, **bad[1]))
+                return
+        if run["post_out"]:
+            chk.violation(f"{which}: {run['post_out']!r} printed after the last event, outside any clock edge",
+                          dict(b, impl=run["post_out"], expected="", classes=[]))
+            return
+        # a run after reset() starts from the initial state again: it must retrace the first run
+        if r > 0:
+            for n in range(min(len(events), len(first["events"]))):
+                e0, e1 = first["events"][n]["env"], events[n]["env"]
+                if e0 != e1:
+                    i = next(i for i in range(len(e0)) if e0[i] != e1[i])
+                    chk.violation(f"{which}: signal {names[i]} is {e1[i]} before event {n}; in the first run, from the same initial state and with the same inputs, it was {e0[i]}",
+                                  dict(b, event_index=n, signal=names[i], impl=e1[i], expected=e0[i], classes=[]))
+                    return
+            if first["final"] is not None and run["final"] != first["final"]:
+                chk.violation(f"{which}: final signal values {run['final']!r} differ from those of the first run {first['final']!r}",
+                              dict(b, impl=run["final"], expected=first["final"], classes=[]))
+                return
+            if not first["cut"] and (len(events) != len(first["events"]) or run["stop"] != first["stop"]):
+                chk.violation(f"{which}: ended with {impl_stop!r} after {len(events)} events; the first run ended with {first['stop']!r} after {len(first['events'])}",
+                              dict(b, impl=run["stop"], expected=first["stop"], classes=[]))
+                return
+        chk.count(len(events))
+        n_emit += sum(1 for e in events if e["out"])
+        for n in range(len(events)):
+            woken = sum(1 for k in range(nf) if rows[k][0][n]["w"] == "1")
+            chk.hist("rerun_fragments_woken_per_event", woken)
+            if impl_stop is not None and n == impl_stop[0]:
+                chk.hist("rerun_fragments_woken_at_stop", woken)
+        if r > 0:
+            chk.hist("reruns", 1)
+    chk.distinct(("rerun", tuple(f["prog"] for f in c["frags"]), json.dumps(c["doms"]), json.dumps(c["plan"])),
+                 n_emit > 0 or any(run["stop"] is not None for run in runs))
+    if nf > 1 and first["stop"] is not None:
+        chk.sample({"stream": "rerun", "fragments": [f["prog"][:200] for f in c["frags"]], "domains": c["doms"], "first_run_stop": first["stop"],
+                    "outs_first": [e["out"] for e in first["events"]], "outs_second": [e["out"] for e in runs[1]["events"]]}, limit=18)
+
+
 def run_brace(chk, quick):
     """F20: a `{` or `}` fill character (dedicated stream, never mixed into the grid)"""
     rng = chk.rng
@@ -1108,7 +1523,9 @@ def run(chk):
                       {"now": src, "proved_against": REGEX_SOURCE})
     import time
     timing = chk.extra.setdefault("timing_s", {})
-    for name, fn in (("reject", run_reject), ("chunks", run_chunks), ("flow", run_flow), ("grid", run_grid), ("brace", run_brace)):
+    # (the rerun stream comes last so that the random streams of the older ones are what they were)
+    for name, fn in (("reject", run_reject), ("chunks", run_chunks), ("flow", run_flow), ("grid", run_grid), ("brace", run_brace),
+                     ("rerun", run_rerun)):
         t0 = time.time()
         fn(chk, quick)
         timing[name] = round(time.time() - t0, 1)
@@ -1122,7 +1539,14 @@ def run(chk):
         "(d) random Module-DSL programs (If/Elif/Else, Switch/Case/Default, nesting <= 3) with Prints, Asserts and Assumes in posedge / "
         "negedge domains without reset, with synchronous and with asynchronous reset, driven by random events (clock toggle, reset toggle, "
         "both at once, neither): text written at every event and the event / message at which Simulator.run() raises, compared with the "
-        "Lean Spec on the program as written and on the lowered statements, and with the Lean Model. "
+        "Lean Spec on the program as written and on the lowered statements, and with the Lean Model; "
+        "(d') designs with 1..3 clocked fragments (own programs and registers, optionally reading each other's registers) in 1..3 "
+        "hand-driven domains with coincident edges, a fixed plan of events run two or three times on the same Simulator with reset() in "
+        "between (first run ended by completion, by a failing Assert/Assume/exception in one of the woken fragments, or by a run_until "
+        "deadline right after an event): for every run, nothing printed and no register moved before the first event, the text of every "
+        "event equals the fragments' active Prints (Spec, per fragment, any evaluation order), the stopping event and message, registers "
+        "change only at active edges of their domain (or a change of its asynchronous reset), nothing is printed after the last event, and a later run retraces the first "
+        "(signal values before every event and at the end). "
         "distinct = distinct (spec, shape) / format / program; non-trivial = some text beyond str(value) is produced / something is "
         "emitted or the simulation stops")
     chk.assumptions += [
@@ -1165,12 +1589,14 @@ def replay(chk, path):
         judge_chunks(chk, chunks_job(tuple(rep["job_args"])))
     elif stream == "flow":
         judge_flow_job(chk, flow_job(tuple(rep["job_args"])))
+    elif stream == "rerun":
+        judge_rerun_job(chk, rerun_job(tuple(rep["job_args"])))
     else:
         print("unknown replay stream", stream)
         return common.EXIT_INFRA
     for summary, r in chk.violations:
         print("VIOLATION", summary[:300])
-        print("  ", {k: r[k] for k in ("format", "env", "event_index", "event", "prog") if k in r})
+        print("  ", {k: r[k] for k in ("format", "env", "event_index", "event", "prog", "run", "fragments", "outs", "pre_out") if k in r})
     for what, _d in chk.unshown:
         print("NOT SHOWN", what)
     return common.EXIT_VIOLATION if (chk.violations or chk.unshown) else common.EXIT_OK
